@@ -8,6 +8,7 @@ import NanoVerif.Model.Gate
 import NanoVerif.Model.Runtime
 import NanoVerif.Model.Compile
 import NanoVerif.Model.Sem
+import NanoVerif.Model.Vmd
 namespace NanoVerif.Driver
 
 def natList (ws : List String) : Option (List Nat) := ws.mapM String.toNat?
@@ -371,6 +372,36 @@ def semCmd (ws : List String) : String :=
     | _, _ => "bad-op"
   | _ => "bad-op"
 
+def frameText : Vmd.Frame → String
+  | .output b => "O:" ++ hexOr b
+  | .error b => "E:" ++ hexOr b
+  | .exit c => s!"X:{c}"
+  | .pong => "P"
+  | .statusRsp b => "S:" ++ hexOr b
+
+/-- `vmd.serve <active> <run> <hex sent>` with run = bad | vf:<hexmsg> | ran:<hexchunk,hexchunk,…|->:<hexerr|->:<code> -/
+def vmdServeCmd (ws : List String) : String :=
+  match ws with
+  | [a, r, hex] =>
+    match a.toNat?, ofHex hex with
+    | some active, some sent =>
+      let run : Option Vmd.Run :=
+        match r.splitOn ":" with
+        | ["bad"] => some .badFormat
+        | ["vf", m] => (ofHex m).map .verifyFail
+        | ["ran", cs, e, c] =>
+          match (if cs == "-" then some [] else (cs.splitOn ",").mapM ofHex), (if e == "-" then some none else (ofHex e).map some), c.toNat? with
+          | some chunks, some err, some code => some (.ran chunks err code)
+          | _, _, _ => none
+        | _ => none
+      match run with
+      | none => "bad-op"
+      | some run =>
+        let (fs, sd) := Vmd.serve (fun _ => run) active sent
+        (if sd then "shutdown " else "continue ") ++ (if fs.isEmpty then "-" else "|".intercalate (fs.map frameText))
+    | _, _ => "bad-op"
+  | _ => "bad-op"
+
 def handle (line : String) : String :=
   match line.splitOn " " with
   | "isa.dec" :: [hex] => isaDec hex
@@ -390,6 +421,7 @@ def handle (line : String) : String :=
   | "lex" :: [hex] => lexCmd hex
   | "compile" :: [hex] => compileCmd hex
   | "sem" :: ws => semCmd ws
+  | "vmd.serve" :: ws => vmdServeCmd ws
   | _ => "bad-op"
 
 end NanoVerif.Driver
